@@ -5,6 +5,8 @@
 package vcommitlog
 
 import (
+	"reflect"
+
 	"github.com/vx-labs/commitlog"
 
 	sync "verif/vsync"
@@ -15,13 +17,18 @@ type proxy struct {
 	mu sync.Mutex
 }
 
-// Open mirrors commitlog.Open.
-func Open(path string, segmentSize uint64) (commitlog.CommitLog, error) {
-	l, err := commitlog.Open(path, segmentSize)
-	if err != nil {
-		return nil, err
+// Open mirrors commitlog.Open, options included (their type is unexported in the library, hence the reflective call:
+// a change of the repository that opens its log with options must be explored, not end in a build failure).
+func Open(path string, segmentSize uint64, opts ...interface{}) (commitlog.CommitLog, error) {
+	args := []reflect.Value{reflect.ValueOf(path), reflect.ValueOf(segmentSize)}
+	for _, o := range opts {
+		args = append(args, reflect.ValueOf(o))
 	}
-	return &proxy{CommitLog: l}, nil
+	out := reflect.ValueOf(commitlog.Open).Call(args)
+	if e := out[1].Interface(); e != nil {
+		return nil, e.(error)
+	}
+	return &proxy{CommitLog: out[0].Interface().(commitlog.CommitLog)}, nil
 }
 
 func (p *proxy) WriteEntry(ts uint64, value []byte) (uint64, error) {
